@@ -131,6 +131,16 @@ def run(tier):
             inv_new2 = GpLinearInverter(y=y, y_err=yerr, model_matrix=A, parameter_spatial_positions=pos,
                                         prior_covariance_function=G.build_kernel(pb["kern"], d, p)[0], prior_mean_function=G.build_mean(pb["mean"])[0])
             m_mix_fresh = np.array(inv_new2.calculate_posterior_mean(t2.copy()))
+            if len(mth) >= 2:
+                for z in range(len(mth)):
+                    tz = th.copy()
+                    tz[z] = 0.0                                # one mean hyper-parameter exactly zero, the others not
+                    mz_only = np.array(inv.calculate_posterior_mean(tz.copy()))
+                    mz_full = np.array(inv.calculate_posterior(tz.copy())[0])
+                    if not np.allclose(mz_only, mz_full, rtol=1e-10, atol=1e-10):
+                        ck.violation("mean-only path = mean of the full path (a mean hyper-parameter exactly zero)",
+                                     {**idn, "theta": tz, "mean_only": mz_only, "full": mz_full}, site="GpLinearInverter.calculate_posterior_mean:zero-parameter")
+                        break
             if len(mth) and not np.allclose(m_mix, m_mix_fresh, rtol=1e-12, atol=1e-12):
                 ck.violation("mean-only path after a full posterior at other mean hyper-parameters = the mean-only path of an inverter without history",
                              {**idn, "theta_first": th, "theta_second": t2, "got": m_mix, "fresh": m_mix_fresh}, site="GpLinearInverter:stale-state")
